@@ -443,6 +443,9 @@ func CheckWrites(rc *RunCtx, rec *BuildRec, ws *WriteState, label string, cancel
 	}
 	outputs := map[string]string{}
 	for _, f := range r.OutputFiles {
+		if prev, dup := outputs[path.Clean(f.Path)]; dup && prev != string(f.Contents) {
+			return viol("two-contents", "", "the build reports the output path %s twice with different contents (%d and %d bytes)", f.Path, len(prev), len(f.Contents))
+		}
 		outputs[path.Clean(f.Path)] = string(f.Contents)
 	}
 	// inputs: everything loaded through the caches/bundler/resolver in this build, plus
